@@ -124,10 +124,7 @@ func (ex *Exec) intrinsic(g *G, fr *Frame, fn *ssa.Function, args []Value, resul
 		set(ts.Ite(args[0].(*Term), args[1].(*Term), args[2].(*Term)))
 	case "verifParam":
 		name := ex.tagOf(args, 0)
-		v, ok := ex.cfg.Params[name]
-		if !ok {
-			ex.unsupported("missing -param " + name)
-		}
+		v := ex.cfg.Params[name] // absent parameters read as 0
 		set(ts.BV(uint64(int64(v)), 64))
 	case "verifYield":
 		noArm()
@@ -206,19 +203,46 @@ func (ex *Exec) intrinsic(g *G, fr *Frame, fn *ssa.Function, args []Value, resul
 		// verifMonitor(name string, on bool)
 		name := ex.tagOf(args, 0)
 		ex.monitors[name] = args[1].(*Term).IsTrue()
+	case "verifChanStat":
+		// verifChanStat(ch any, what string) int: engine-side channel monitors
+		iv := args[0].(*IfaceV)
+		cv, _ := iv.V.(*ChanV)
+		what := ex.tagOf(args, 1)
+		n := 0
+		if cv != nil && cv.C != nil {
+			switch what {
+			case "senders":
+				seen := map[int]bool{}
+				for _, g := range cv.C.SendLog {
+					seen[g] = true
+				}
+				n = len(seen)
+			case "closers":
+				n = len(cv.C.CloseBy)
+			case "sends":
+				n = len(cv.C.SendLog)
+			case "closed":
+				if cv.C.Closed {
+					n = 1
+				}
+			case "buffered":
+				n = len(cv.C.Buf)
+			}
+		}
+		set(ts.BV(uint64(n), 64))
 	case "verifGuard":
 		// verifGuard(mu *sync.Mutex, p unsafe pointer-ish root cell...) handled by verifGuardCell variants
 		ex.unsupported("verifGuard")
 	case "verifGuardMap":
 		// verifGuardMap(mu *sync.Mutex, m any map): map accessed only with mu held
-		p := args[0].(*PtrV)
+		p := args[0].(*IfaceV).V.(*PtrV)
 		iv := args[1].(*IfaceV)
 		if mv, ok := iv.V.(*MapV); ok && mv.M != nil {
 			ex.guardMaps[mv.M] = p.Cell
 		}
 	case "verifGuardPtr":
 		// verifGuardPtr(mu *sync.Mutex, p any pointer): cell tree accessed only with mu held
-		p := args[0].(*PtrV)
+		p := args[0].(*IfaceV).V.(*PtrV)
 		iv := args[1].(*IfaceV)
 		if pv, ok := iv.V.(*PtrV); ok && pv.Cell != nil {
 			ex.guardTree(pv.Cell, p.Cell)
